@@ -17,17 +17,19 @@ pub(crate) fn bin_to_image(bin: &[u8]) -> Option<Image> {
         3 => TextureDimension::D3,
         _ => TextureDimension::D2,
     };
-    Some(Image::new(
-        Extent3d {
-            width: img.width,
-            height: img.height,
-            depth_or_array_layers: img.depth_or_array_layers,
-        },
-        dimension,
-        img.data,
-        img.format,
-        RenderAssetUsages::RENDER_WORLD | RenderAssetUsages::MAIN_WORLD,
-    ))
+    // not Image::new: it asserts (in debug builds) that the data is exactly extent x texel size, which
+    // does not hold for images with mip levels, block-compressed formats or formats without a texel size
+    let mut image = Image::default();
+    image.data = img.data;
+    image.texture_descriptor.dimension = dimension;
+    image.texture_descriptor.size = Extent3d {
+        width: img.width,
+        height: img.height,
+        depth_or_array_layers: img.depth_or_array_layers,
+    };
+    image.texture_descriptor.format = img.format;
+    image.asset_usage = RenderAssetUsages::RENDER_WORLD | RenderAssetUsages::MAIN_WORLD;
+    Some(image)
 }
 
 pub(crate) fn image_to_bin(image: &Image) -> Option<Vec<u8>> {
